@@ -172,10 +172,10 @@ def recvData (c : H2Conn) (sid len : Nat) (pad : Option Nat) (endStream : Bool) 
     | none =>
       if c.hcRecent then connWinUpd c len
       else if alen = 0 then (c, [])
+      else if c.goaway ≠ 0 then (c, [])     -- a GOAWAY is out already: the frame is dropped
       else
-        -- not a data sink: GOAWAY(NO_ERROR) once, and stop parsing this round
-        let r : Res := if c.goaway = 0 then sendGoaway c 0 else (c, [])
-        ({ r.1 with stop := true }, r.2)
+        -- not a data sink: GOAWAY(NO_ERROR), and stop parsing this round
+        ({ (sendGoaway c 0).1 with stop := true }, (sendGoaway c 0).2)
     | some s => recvDataStream c s sid len alen endStream
 
 /-- h2_recv_window_update() -/
